@@ -2561,6 +2561,12 @@ def symbolic_transform_fn(allow_partial: bool):
           value_spec=value_spec,
           allow_partial=allow_partial,
           root_path=path)
+    else:
+      return value
+    if field.value.frozen or (value_spec is not None and value_spec.frozen):
+      # The content of a frozen field (or of the frozen Union candidate the
+      # value is bound to) is as immutable as the field itself.
+      value.seal()
     return value
 
   return _fn
